@@ -5,7 +5,7 @@
        state-table refine the requirement and that Hess, Antisymmetry, ActDifference,
        DetailedBalance, KeqActRatio, RouteIsolation and CallerUntouched hold
        (MC_Reaction.cfg: all reactions, MC_Reaction_route.cfg: all caller dictionaries).
-(S->C) TLC emits 8 472 (reaction, caller dictionary) cases with the exact value of every state and
+(S->C) TLC emits 8 469 (reaction, caller dictionary) cases with the exact value of every state and
        change for integer stand-in species; they are replayed into real Reaction /
        ChemkinReaction / SurfaceReaction objects built from recording stand-in species:
        returned values and the keywords each species received must EQUAL what TLC computed.
